@@ -143,7 +143,7 @@ func runC18(c *Ctx) {
 			if x.Call.IsInvoke() && x.Call.Method.Name() == "ConfigPath" {
 				cfgPath = x
 			}
-			if callee := staticCallee(x); callee != nil && callee.Name() == "fileSource" {
+			if callee := staticCallee(x); callee != nil && fnName(callee) == "fileSource" {
 				fileSrc = x
 			}
 		case *ssa.Defer:
